@@ -15,4 +15,30 @@ CLAIMED["C01"] = dict(
     text="Decides who can change supply and with which values: BANK.mint/BANK.burn atoms are enumerated over the whole module and must be reachable only from the cfeminter resp. cfedistributor block routine and from no message, query, ValidateBasic, genesis, migration, upgrade or invariant entry (module call graph with CHA on module interfaces); the vesting/signature keeper interfaces cannot mint, burn or delegate; in the minting routine one mint per activation, the coins minted = coins forwarded = amount book-kept (value identity on SSA), module names cfeminter -> distributor main account (constant resolution through wrappers and app.New), book-keeping only on the success edges; the burn is under State.Burn, burns TruncateDecimal()#0 of that state's remains from the main account and stores #1 of the same call only on success.",
     note="Undecided: the arithmetic value of the minted/burned amounts and bank's supply==sum(balances) (trusted). Call graph: static callees, closures, function values by signature, CHA over module types; SDK callees are leaves classified by name+signature.",
     technique="who-may-call over module call graph + value identity on SSA + edge-dominance")
-NOT_APPLICABLE = {p: _TODO for p in ["C02","C03","C04","C05","C06","C07","C08","C09","C10","C11","C12","C14","C15","C16","C17","C18","C19","C20"]}
+CLAIMED["C05"] = dict(
+    text="Pairing of ledger and bank, decided on every path: every writer of VestingPool.{InitiallyLocked,Sent,Withdrawn} and of the pools store prefix is enumerated and classified by the entry set that reaches it; each keeper operation that changes a ledger field has a bank transfer with the cfevesting module constant, in the matching direction, carrying the same SSA value (or its per-pool accumulator), and persists only on the transfer's success edge (or where the amount is not positive); every outflow is paired; Sent grows only where currentlyLocked>=amount (ordering table) and amount is validated non-negative; all bank/keeper errors on vesting message trees are tested and their failure edge returns an error; InitGenesis persists pools only after the solvency comparison succeeded.",
+    note="Undecided: nothing numeric beyond value identity. 'A rejected message changes nothing' relies on baseapp's rollback (trusted) plus C05.errprop. Solvency of genesis files relies on ValidateAccountsOnGenesis's comparison (presence and fatality checked, arithmetic trusted).",
+    technique="effect enumeration + value identity on SSA + success-edge dominance + ordering abstraction")
+CLAIMED["C06"] = dict(
+    text="The time lock is a comparison-only function and is decided over the three orderings of (now, LockEnd): before => zero, equal/after => pool.GetCurrentlyLocked(); query and withdrawal call that same oracle with ctx.BlockTime() and the stored pool; the only module->account outflows are the withdrawal (sum of oracle results) and the transfer to an account created as a continuous vesting account on the same path.",
+    note="'Pays exactly the remainder / a repeated withdrawal pays zero' is C05.pair's value identity (Withdrawn is persisted). SDK time semantics trusted.",
+    technique="finite ordering abstraction over SSA CFG + sibling agreement + success-edge dominance")
+CLAIMED["C07"] = dict(
+    text="Structural clauses of split/move: recipient gets the very Coins unlocked, the sender's EndTime and max(now, sender start) (ordering table); the transfer carries the same Coins between the same addresses, chained on success edges; the sender's account is stored only behind amount.IsAllLTE(LockedCoins(blockTime)) and the ContinuousVestingAccount type test; only OriginalVesting is written, by subtraction from itself; the move handlers pass LockedCoins(from) (restricted to msg.Denoms).",
+    note="NOT decided: exactness of the OriginalVesting reduction, the rounding bound (incl. the known one-unit excess above ~2e18), unchanged spendable balance, combined locked amounts over time: arithmetic over the SDK vesting formula.",
+    technique="value identity on SSA + ordering abstraction + edge-dominance")
+CLAIMED["C08"] = dict(
+    text="Structural clauses: the amount added to Sent, passed to account creation and transferred are one SSA value; original vesting depends on amount and Free through TruncateInt only (no rounding-up operator), the transfer is independent of Free; restart => (start,end) originate from block time + LockupPeriod (+ VestingPeriod for end), no restart => both pool.LockEnd; account start = max(lockEnd, now) by ordering table; direct creation forwards the message's coins, start and end unchanged; the stored account is ContinuousVestingAccount(NewAccountWithAddress(to), originalVesting, start, end) of the parameters.",
+    note="NOT decided: the numeric value floor(amount*(1-free)). 'Brand-new account' is C09.fresh. Parameters are identified by type and position, not by name.",
+    technique="value-origin slices + ordering abstraction + edge-dominance on restart flag")
+CLAIMED["C17"] = dict(
+    text="Single-step lineage rule decided structurally: pool send appends (recipient, Genesis=false, FromGenesisAccount=false, FromGenesisPool=flag of the debited pool) only on success; split appends only when the sender is traced, inheriting FromGenesisPool and FromGenesisAccount = Genesis||FromGenesisAccount (truth table over the short-circuit CFG); no other trace writer is reachable from a message; summary literal: all=accounts+pools, delegated=vesting-locked in this order, sums over GetVestingCoins/LockedCoins at block time, genesis variant filtered by the three-flag predicate (8-row truth table) and GetGenesisAmount (genesis pools only).",
+    note="NOT decided: numeric equality with recomputation from bank state; lineage over chains follows by induction from the single step and is not explored as histories.",
+    technique="composite-literal field correspondence + boolean truth tables over SSA CFG + who-may-write")
+CLAIMED["C18"] = dict(
+    text="Value identity between each amount-carrying event and the effect it describes, for all 8 emit sites: Mint <- result of Keeper.Mint (which returns mint()'s total or zero); Distribution/DistributionBurn <- the share credited in the same iteration; WithdrawAvailable <- the per-pool value added to Withdrawn, recorded only under a positivity test of that value; pool-send and pool-creation events <- the amount sent/locked, built only on success edges.",
+    note="NOT decided: that a block's distribution and burn events add up to the inflow (sum identity). Defect F1 (running total in withdrawal events) was found by this rule and repaired (fix: ec70f1a).",
+    technique="value identity on SSA (event field vs effect operand) + edge-dominance")
+import json as _json, os as _os
+_ALL = [_json.loads(l)["id"] for l in open(_os.path.join(VERIF, "properties.jsonl"))]
+NOT_APPLICABLE = {p: _TODO for p in _ALL if p not in CLAIMED}
